@@ -22,6 +22,7 @@ var carrierFamilies = []struct{ Name, Reason string }{
 	{"bcl-ast", "BCL syntax tree (internal/bcl/internal/parser): nodes are freshly allocated by the recursive-descent parser, children before parents"},
 	{"schema-items", "j5schema ArrayField/MapField item nesting: the item schema is built before the container that holds it (buildSchema), named references go through RefSchema which is not in this family"},
 	{"source-nodes", "sourcewalk node structs (FieldNode, PropertyNode, …): wrappers built by buildFieldNode around sub-terms of the source schema message, children before parents"},
+	{"descriptors", "protoreflect descriptors followed along declaration nesting only (Messages, Enums, Fields, Oneofs, Values, Services, Methods, Extensions, Get, ByName): the nesting of declarations in a .proto file is a finite tree; the accessors that follow references (Message, Enum, Parent, ContainingMessage, Input, Output …) are not descent steps"},
 	{"slice", "slices and strings: an index, a range element or a re-slice x[k:] with k ≥ 1 is strictly smaller than x"},
 }
 
@@ -44,6 +45,8 @@ func (d *descent) family(t types.Type) string {
 		path := n.Obj().Pkg().Path()
 		file := d.pk.Fset.Position(n.Obj().Pos()).Filename
 		switch {
+		case path == "google.golang.org/protobuf/reflect/protoreflect" && (strings.HasSuffix(n.Obj().Name(), "Descriptor") || strings.HasSuffix(n.Obj().Name(), "Descriptors")):
+			return "descriptors"
 		case strings.HasSuffix(file, ".pb.go"):
 			return "proto"
 		case strings.HasSuffix(path, "/internal/bcl/internal/parser"):
@@ -248,6 +251,19 @@ func (d *descent) derive(e ast.Expr, depth int) (root types.Object, steps int, o
 		if sel, isSel := x.Fun.(*ast.SelectorExpr); isSel && len(x.Args) == 0 {
 			if fn := core.CalleeFunc(d.info, x); fn != nil && strings.HasPrefix(fn.Name(), "Get") && d.family(d.info.TypeOf(sel.X)) == "proto" {
 				return step(sel.X)
+			}
+		}
+		// declaration nesting of protoreflect descriptors
+		if sel, isSel := x.Fun.(*ast.SelectorExpr); isSel && d.family(d.info.TypeOf(sel.X)) == "descriptors" {
+			switch sel.Sel.Name {
+			case "Messages", "Enums", "Fields", "Oneofs", "Values", "Services", "Methods", "Extensions":
+				if len(x.Args) == 0 {
+					return step(sel.X)
+				}
+			case "Get", "ByName", "ByNumber", "ByJSONName", "ByTextName":
+				if len(x.Args) == 1 {
+					return step(sel.X)
+				}
 			}
 		}
 	}
